@@ -71,9 +71,27 @@ def allocEntry (s : Session) (st : List PropMap × List (Name × Ref)) (ke : Nam
     | some r => (st.1, st.2 ++ [(ke.1, r)])
     | none => st
 
-def loadSection (s : Session) (name : Name) (entries : List (Name × EntrySpec)) : Session :=
-  { s with params := (entries.foldl (allocEntry s) (s.params, [])).1,
-           sections := s.sections ++ [⟨name, (entries.foldl (allocEntry s) (s.params, [])).2⟩] }
+/-- one member of a `Group(...)` argument (config.py:80-86, repaired: the `Param` object the module was given may be used
+for other modules, too — it is copied, and `group` is written into the copy; `d['group'] = g` keeps the position of an
+existing item and appends a new one).  A member without entry is a `KeyError` in Python: the load fails as a whole and is
+not applied in the model. -/
+def regroup (g : PVal) (st : List PropMap × List (Name × Ref)) (member : Name) : List PropMap × List (Name × Ref) :=
+  match (aget? st.2 member).bind (fun r => st.1[r]?) with
+  | some p => (st.1 ++ [aput p "group" g], aput st.2 member st.1.length)
+  | none => st
+
+def applyGroups (groups : List (PVal × List Name)) (st : List PropMap × List (Name × Ref)) :
+    List PropMap × List (Name × Ref) :=
+  groups.foldl (fun st g => g.2.foldl (regroup g.1) st) st
+
+/-- `Mod(name, cls, description, **kwds)` (config.py:64-86): the entries, then the groups -/
+def loadState (s : Session) (entries : List (Name × EntrySpec)) (groups : List (PVal × List Name)) :
+    List PropMap × List (Name × Ref) :=
+  applyGroups groups (entries.foldl (allocEntry s) (s.params, []))
+
+def loadSection (s : Session) (name : Name) (entries : List (Name × EntrySpec)) (groups : List (PVal × List Name)) : Session :=
+  { s with params := (loadState s entries groups).1,
+           sections := s.sections ++ [⟨name, (loadState s entries groups).2⟩] }
 
 /-- what `Module.__init__` gets to see of a section: every key with the items of its `Param` object, as they are *now* -/
 def readEntries (params : List PropMap) (entries : List (Name × Ref)) : List (Name × PropMap) :=
@@ -110,7 +128,7 @@ inductive SOp where
   /-- class definition, with the names of its direct bases -/
   | define (d : ClassDecl) (bases : List Name)
   /-- a module section of the configuration is loaded -/
-  | load (name : Name) (entries : List (Name × EntrySpec))
+  | load (name : Name) (entries : List (Name × EntrySpec)) (groups : List (PVal × List Name))
   /-- a module is created from a loaded section (start, or restart: the same section again) -/
   | create (inst cls sec : Name)
   | setprop (inst par : Name) (path : List Nat) (key : Name) (val : PVal)
@@ -124,7 +142,7 @@ deriving Inhabited
 /-- the operation on classes and instances a session operation amounts to -/
 def SOp.worldOp (s : Session) : SOp → Option Op
   | .define d _ => some (.define d)
-  | .load _ _ => none
+  | .load _ _ _ => none
   | .create i c sec => some (.inst i c (readSection s sec))
   | .setprop i p pa k v => some (.setprop i p pa k v)
   | .addEnum i p m => some (.addEnum i p m)
@@ -139,7 +157,7 @@ def stepWorld (T : STables) (s : Session) (op : SOp) : World :=
 def sstep (T : STables) (s : Session) (op : SOp) : Session :=
   match op with
   | .define d bs => { s with world := stepWorld T s op, bases := s.bases ++ [(d.name, bs)] }
-  | .load n es => loadSection s n es
+  | .load n es gs => loadSection s n es gs
   | .create i c sec =>
     { s with world := stepWorld T s op,
              autos := s.autos ++ [⟨i, sec, featuresOf s.bases (mroOf s.world c), interfaceOf T (mroOf s.world c)⟩] }
